@@ -21,6 +21,10 @@ CLAIMED = {
          "Theorems in coq/Props/C10.v: core forms only after desugaring; the exact call each sugar form becomes (receiver first, source order, debug column kept); commutation with position erasure; idempotence on trees without a member callee and its refutation in general (known finding). Tied to the code by comparing Desugar's output on generated parsed trees node by node; the harness also checks non-mutation of the input and evaluates sugared/explicit pairs through Eval.",
          "Trusted: Coq kernel, extraction, driver, harness. 'The original tree is left untouched' is vacuous in a pure model: checked on the implementation only (supporting evidence).",
          "DESIGN.md §5 C10"),
+ "C05": ("Coq proof over a transcription of types/typecheck.go + env.go + overload.go; differential correspondence incl. every annotation; independent reference checker as direct predicate",
+         "Theorems in coq/Props/C05.v relate the checker model to the declarative typing relation (see file). The model is tied to the code by comparing accept/reject, the inferred type and every annotation the back ends rely on (literal types, resolved overload key and index, instantiated callee type, member index) on type-directed programs and their type-breaking mutants under five registration histories.",
+         "Trusted: Coq kernel, extraction, driver, harness. User environments with their own function tables (types.Env chains deeper than facade's) are not modelled.",
+         "DESIGN.md §5 C05"),
 }
 NOT_YET = "machinery for this property is not built yet (work in progress in this repository; see DESIGN.md §5)"
 
